@@ -438,8 +438,22 @@ def gen_o_reflect(rng, n):
             ds = [x for x in ds if G.mink(np.array(x), np.array(x)) > 0.2]
             if len(ds) < dim + 1:
                 shape, ds = [], [[0.1, 1.0, 0.3] + [0.0] * (dim - 2)]
-        ipack = None
+        if rng.random() < 0.15:
+            # G12: the normal is a homogeneous vector: any overall size
+            ds = [(np.array(x) * 10 ** rng.uniform(-9, 9)).tolist() for x in ds]
+        rho = None
         if rng.random() < 0.25:
+            # G12: walls at hyperbolic distance rho from the centre: normal (sinh rho, cosh rho u); the reflection matrix has
+            # entries of size e^(2 rho) / 2.  Up to 4.4 everything must work; from 4.7 on from_reflection's absolute
+            # eigenvalue threshold starts to reject the reflection (known finding, tagged far_wall)
+            rho = rng.uniform(2.0, 4.4) if rng.random() < 0.6 else rng.uniform(4.7, 9.0)
+            ds = []
+            for _ in range(int(np.prod(shape)) if shape else 1):
+                u = np.array([rng.gauss(0, 1) for _ in range(dim)])
+                u = u / np.linalg.norm(u)
+                ds.append(([math.sinh(rho)] + (math.cosh(rho) * u).tolist()))
+        ipack = None
+        if rho is None and rng.random() < 0.25:
             # integral normals in every packaging of the data (integer arrays, nested lists of ints, float32)
             ds = [[float(x) for x in G.int_spacelike(rng, dim)] for _ in ds]
             ipack = rng.choice(G.DATA_PACKS)
@@ -452,7 +466,7 @@ def gen_o_reflect(rng, n):
             if opack.startswith("list_") and len(shape) != 1:
                 opack = opack[5:]
         yield {"dim": dim, "shape": shape, "d": ds, "w": [rng.gauss(0, 1) for _ in range(dim + 1)],
-               "normals_only": rng.random() < 0.7, "ipack": ipack, "opack": opack}
+               "normals_only": rng.random() < 0.7, "ipack": ipack, "opack": opack, "rho": rho}
 
 
 def run_o_reflect(inp):
@@ -487,19 +501,25 @@ def run_o_reflect(inp):
     R = np.array(Hp.reflection_across().proj_data, dtype=float)
     Jm = G.J(dim)
     eye = np.eye(dim + 1)
-    out["invol"] = float(np.abs(R @ R - eye).max())
-    out["form"] = float(np.abs(R @ Jm @ np.swapaxes(R, -1, -2) - Jm).max())
+    sc = max(1.0, float(np.abs(R).max())) ** 2      # residuals relative to the size of the products formed
+    out["invol"] = float(np.abs(R @ R - eye).max()) / sc
+    out["form"] = float(np.abs(R @ Jm @ np.swapaxes(R, -1, -2) - Jm).max()) / sc
     out["det"] = np.linalg.det(R).reshape(-1).tolist()
+    out["det_tol"] = min(0.5, 1e-9 * sc ** ((dim + 1) / 2))       # a determinant is a sum of products of dim+1 entries
     dn = d / np.sqrt(G.mink(d, d))[..., None]
-    out["normal"] = float(np.abs(np.einsum("...i,...ij->...j", dn, R) + dn).max())
+    out["normal"] = float(np.abs(np.einsum("...i,...ij->...j", dn, R) + dn).max() / (np.abs(dn).max() * math.sqrt(sc)))
     ib = np.array(Hp.ideal_basis, dtype=float)
     out["ideal_null"] = float(np.abs(np.einsum("...ki,ij,...kj->...k", ib, Jm, ib)).max())
-    out["ideal_fixed"] = float(np.abs(ib @ R - ib).max())
+    out["ideal_fixed"] = float(np.abs(ib @ R - ib).max() / (max(1.0, np.abs(ib).max()) * math.sqrt(sc)))
     # a random point of the wall: project w off the normal
     w = np.array(inp["w"])
     wp = w - G.mink(np.broadcast_to(w, dn.shape), dn)[..., None] * dn
-    out["wall_fixed"] = float(np.abs(np.einsum("...i,...ij->...j", wp, R) - wp).max())
-    H2 = H.Hyperplane.from_reflection(H.Isometry(R.copy()))
+    out["wall_fixed"] = float(np.abs(np.einsum("...i,...ij->...j", wp, R) - wp).max() / (max(1.0, np.abs(wp).max()) * math.sqrt(sc)))
+    try:
+        H2 = H.Hyperplane.from_reflection(H.Isometry(R.copy()))
+    except GeometryError as e:
+        out["rt_rejected"] = str(e)[:80]
+        return out
     n2 = np.array(H2.spacelike_vector, dtype=float)
     out["rt_shape"] = list(n2.shape) == list(dn.shape)
     if out["rt_shape"]:
@@ -508,7 +528,7 @@ def run_o_reflect(inp):
         out["rt_ideal"] = float(max(np.abs(np.einsum("...ki,ij,...kj->...k", ib2, Jm, ib2)).max(),
                                     np.abs(np.einsum("...ki,ij,...j->...k", ib2, Jm, dn)).max()))
         R2 = np.array(H2.reflection_across().proj_data, dtype=float)
-        out["rt_refl"] = float(np.abs(R2 - R).max())
+        out["rt_refl"] = float(np.abs(R2 - R).max() / math.sqrt(sc))
         if dim == 2:
             g = H.Geodesic.from_reflection(H.Isometry(R.copy()))
             e = np.array(g.endpoints, dtype=float)
@@ -523,7 +543,8 @@ def judge_o_reflect(inp, obs, lr):
     square = bool(inp["shape"]) and inp["shape"][-1] == inp["dim"] + 1 and not inp.get("normals_only") \
         and inp.get("opack") not in ("Hyperplane", "list_Hyperplane")
     tags = {"composite": bool(inp["shape"]), "dim": inp["dim"], "square_shape": square, "call_site": "Hyperplane.__init__",
-            "normals_only": bool(inp.get("normals_only")), "data_pack": inp.get("opack") or inp.get("ipack") or "float64"}
+            "normals_only": bool(inp.get("normals_only")), "data_pack": inp.get("opack") or inp.get("ipack") or "float64",
+            "far_wall": bool(inp.get("rho") and inp["rho"] > 4.6)}
     if "exc" in obs:
         return {"expected": "hyperplane(s) and reflection(s)", "observed": obs, "tags": dict(tags, exc=obs["exc"])}
     if not obs["shape_ok"]:
@@ -532,14 +553,17 @@ def judge_o_reflect(inp, obs, lr):
     t = 1e-8 * f
     if not (obs["invol"] <= t and obs["form"] <= t):
         return {"expected": "involutive isometry", "observed": obs, "tags": dict(tags, what="involution")}
-    if not all(abs(x + 1) <= 1e-8 * f for x in obs["det"]):
+    if not all(abs(x + 1) <= max(1e-8 * f, obs.get("det_tol", 0.0)) for x in obs["det"]):
         return {"expected": "orientation reversing (det -1)", "observed": obs["det"], "tags": dict(tags, what="det")}
     if not obs["normal"] <= t:
         return {"expected": "normal negated", "observed": obs["normal"], "tags": dict(tags, what="normal")}
     if not (obs["ideal_null"] <= 1e-7 * f and obs["ideal_fixed"] <= 1e-7 * f and obs["wall_fixed"] <= 1e-7 * f):
         return {"expected": "wall fixed pointwise", "observed": obs, "tags": dict(tags, what="wall")}
+    if "rt_rejected" in obs:
+        return {"expected": "from_reflection(reflection_across(H)) = H", "observed": {"GeometryError": obs["rt_rejected"]},
+                "tags": dict(tags, what="roundtrip rejected", call_site="Hyperplane.from_reflection")}
     if not (obs["rt_shape"] and obs["rt_normal"] <= 1e-7 * f and obs["rt_ideal"] <= 1e-7 * f and obs["rt_refl"] <= 1e-7 * f and obs.get("geo", 0) <= 1e-7 * f):
-        return {"expected": "from_reflection(reflection_across(H)) = H", "observed": obs, "tags": dict(tags, what="roundtrip")}
+        return {"expected": "from_reflection(reflection_across(H)) = H", "observed": obs, "tags": dict(tags, what="roundtrip", call_site="Hyperplane.from_reflection")}
     return None
 
 
